@@ -115,6 +115,32 @@ Theorem C19_g_shape : forall lf c fwv precv x,
                   (fl_plus (flags c)) (fl_blank (flags c))).
 Proof. exact g_shape. Qed.
 
+(* Display (f64::to_string, used by %s and %d above 2^53), the rule implemented: the first
+   digit count at which a neighbour lies inside the rounding interval (reads back as the same
+   double); both inside: the closer, an exact tie UP as Rust's flt2dec does *)
+Theorem C19_shortest_sound : forall fuel m e E b n,
+  let '(d, k) := shortest_search fuel m e E b n in
+  (in_interval m e b d k = true /\
+   exists n', (n <= n')%Z /\ k = (E - n' + 1)%Z /\
+     forall j, (n <= j < n')%Z ->
+       in_interval m e b (cand_lo m e E j) (E - j + 1)%Z = false /\
+       in_interval m e b (cand_lo m e E j + 1)%Z (E - j + 1)%Z = false)
+  \/ k = (E - (n + Z.of_nat fuel) + 1)%Z.
+Proof. exact shortest_search_sound. Qed.
+
+Theorem C19_shortest_tie_rule : forall f m e E b n,
+  let k := (E - n + 1)%Z in
+  let lo := cand_lo m e E n in
+  in_interval m e b lo k = true -> in_interval m e b (lo + 1)%Z k = true ->
+  shortest_search (S f) m e E b n =
+  if (dist m e lo k <? dist m e (lo + 1) k)%Z then (lo, k) else ((lo + 1)%Z, k).
+Proof. exact shortest_tie_rule. Qed.
+
+(* the repaired false alarm: 10^15 + 1/4 prints ...000.3 *)
+Theorem C19_display_tie_up :
+  display (f_of_bits 0x430c6bf526340002) = [49; 48; 48; 48; 48; 48; 48; 48; 48; 48; 48; 48; 48; 48; 48; 48; 46; 51].
+Proof. exact display_tie_up. Qed.
+
 (* the two defects found on the pinned tree, as facts about the code they were in *)
 Theorem C19_pad_bytes_refuted : exists s w l, lenN (field_pad_bytes s w l) < w.
 Proof. exact pad_reaches_width_refuted. Qed.
@@ -246,6 +272,9 @@ Print Assumptions C19_exp_is_rendered.
 Print Assumptions C19_g_selects.
 Print Assumptions C19_g_trim_keeps_value.
 Print Assumptions C19_g_deviations.
+Print Assumptions C19_shortest_sound.
+Print Assumptions C19_shortest_tie_rule.
+Print Assumptions C19_display_tie_up.
 Print Assumptions C19_pad_bytes_refuted.
 Print Assumptions C19_fmt_prec_limit.
 Print Assumptions C19_nonvacuous.
